@@ -62,6 +62,8 @@ func Render(v any) string {
 		return fmt.Sprintf("%q", x)
 	case [2]any:
 		return Render(x[0]) + "|" + Render(x[1])
+	case error:
+		return errKey(x)
 	}
 	return fmt.Sprintf("%v", v)
 }
@@ -72,7 +74,9 @@ func errKey(err error) string {
 	}
 	var sem *jsonv2.SemanticError
 	if errors.As(err, &sem) {
-		return fmt.Sprintf("SemanticError@%d%q", sem.ByteOffset, sem.JSONPointer)
+		// every field a caller can read (the message text is left out: its wording varies between processes);
+		// JSONValue is rendered from the error object each time, so a value aliasing a recycled buffer shows up
+		return fmt.Sprintf("SemanticError@%d%q kind=%v value=%q type=%v", sem.ByteOffset, sem.JSONPointer, sem.JSONKind, string(sem.JSONValue), sem.GoType)
 	}
 	var syn *jsontext.SyntacticError
 	if errors.As(err, &syn) {
@@ -85,7 +89,11 @@ func errKey(err error) string {
 }
 
 func mk(out any, err error) Result {
-	kept := [2]any{out, errKey(err)}
+	var e any = "ok"
+	if err != nil {
+		e = err // the error object itself is kept and rendered again after later calls
+	}
+	kept := [2]any{out, e}
 	return Result{Snap: Render(kept), Kept: kept}
 }
 
@@ -299,6 +307,39 @@ func Alphabet() []Call {
 			var v any
 			err := jsonv2.UnmarshalRead(&chunkReader{b: []byte(rep), n: 7}, &v)
 			return mk(v, err)
+		}},
+		{"UnmarshalRead of a 24 KiB document from a plain reader", func() Result {
+			var sb strings.Builder
+			sb.WriteString("[")
+			for i := 0; i < 1500; i++ {
+				fmt.Fprintf(&sb, `{"i":%d,"s":"x%d"},`, i, i)
+			}
+			sb.WriteString(`"end"]`)
+			var v []any
+			err := jsonv2.UnmarshalRead(&chunkReader{b: []byte(sb.String()), n: 1 << 20}, &v)
+			return mk(fmt.Sprintf("%d %v", len(v), v[len(v)-1]), err)
+		}},
+		{"UnmarshalRead failing with a syntax error (plain reader)", func() Result {
+			var v any
+			err := jsonv2.UnmarshalRead(&chunkReader{b: []byte(`[1, 2, {"a": x}]`), n: 1 << 20}, &v)
+			return mk(v, err)
+		}},
+		{"UnmarshalRead failing with a conversion error (chunked reader, error kept)", func() Result {
+			var v struct {
+				A int8
+				B string
+			}
+			err := jsonv2.UnmarshalRead(&chunkReader{b: []byte(`{"B":"before","A":3000,"C":"` + strings.Repeat("after", 40) + `"}`), n: 16}, &v)
+			return mk(v.B, err)
+		}},
+		{"Unmarshal failing with a conversion error, input overwritten afterwards (error kept)", func() Result {
+			in := []byte(`{"k":[1000, "s"]}`)
+			var v map[string][]int8
+			err := jsonv2.Unmarshal(in, &v)
+			for i := range in {
+				in[i] = '#'
+			}
+			return mk(len(v), err)
 		}},
 		{"Unmarshal with panicking UnmarshalJSONFrom at depth 2", func() Result {
 			return recoverAs(func() Result {
